@@ -119,6 +119,22 @@ def build_msg(spec, source='bytes', tmpdir=None):
     return msg
 
 
+class ShortReads(io.BytesIO):
+    """read(n) returns at most a varying number of bytes (5, 1, 11, 3, ... ) when more were asked for."""
+    CAPS = (5, 1, 11, 3, 700, 2)
+
+    def __init__(self, data):
+        io.BytesIO.__init__(self, data)
+        self._k = 0
+
+    def read(self, n=-1):
+        if n is None or n < 0:
+            return io.BytesIO.read(self)
+        cap = self.CAPS[self._k % len(self.CAPS)]
+        self._k += 1
+        return io.BytesIO.read(self, min(n, cap) if n > 1 else n)
+
+
 def attach(msg, data, source='bytes', tmpdir=None):
     if data is None:
         msg.data_set = None
@@ -140,6 +156,10 @@ def attach(msg, data, source='bytes', tmpdir=None):
         msg.data_set = open(path, 'rb')
         msg.data_set.seek(333)
         os.unlink(path)
+    elif source == 'short-reads':
+        # a seekable RAW stream (pipe-like, network file system): read(n) may return FEWER than n bytes although more
+        # follow - legal for any io.RawIOBase; only an empty result means end of data
+        msg.data_set = ShortReads(bytes(data))
     elif source == 'gzip':
         # a seekable file object whose descriptor belongs to a DIFFERENT byte stream than read() delivers
         import gzip
